@@ -59,9 +59,75 @@ def specs(shape):
     return out
 
 
+def make_run_values(W, shape):
+    """value-dependent annotations whose check looks INTO the argument (Callable[[...], ...] reads the signature of the function passed;
+    list[...] / tuple[...] look at elements): arguments of one class that are told apart only by that look, called in every order -- each
+    call must answer like the first call ever made on a fresh function"""
+    import itertools as it
+    from typing import Callable
+
+    from ovld import Ovld
+
+    def factory(t):
+        def g(x: t) -> t:         # one def statement, several function objects with different annotations
+            return x
+        return g
+
+    # (value, the method its documented meaning selects -- what a first call in a fresh process answers)
+    VALUES = [("g[int]", factory(int), 0), ("g[str]", factory(str), 1), ("g[float]", factory(float), 4),
+              ("[1]", [1], 2), ("['a']", ["a"], 4), ("(1, 'a')", (1, "a"), 3), ("('a', 1)", ("a", 1), 4)]
+    perms = list(it.permutations(range(len(VALUES)), 3))
+
+    def mk():
+        LOG = []
+
+        def m0(fn: Callable[[int], int]):
+            LOG.append((0,))
+            return 0
+
+        def m1(fn: Callable[[str], str]):
+            LOG.append((1,))
+            return 1
+
+        def m2(xs: list[int]):
+            LOG.append((2,))
+            return 2
+
+        def m3(xs: tuple[int, str]):
+            LOG.append((3,))
+            return 3
+
+        def m4(x: object):
+            LOG.append((4,))
+            return 4
+        ov = Ovld()
+        for fn, p in ((m0, 0), (m1, 0), (m2, 0), (m3, 0), (m4, -1)):
+            ov.register(fn, priority=p)
+        return ov, LOG
+
+    def run(ctx):
+        seq = perms[ctx.choose("history", len(perms))]
+        ov, LOG = mk()
+        ok, trace = True, []
+        for i in seq:
+            name, v, exp = VALUES[i]
+            got = full_outcome(lambda: ov.dispatch(v), LOG)
+            ref, LOG2 = mk()
+            first = full_outcome(lambda: ref.dispatch(v), LOG2)
+            trace.append(dict(call=name, got=got, on_a_fresh_function=first, documented=exp))
+            # (a fresh function in the SAME process shares whatever the library remembers module-wide: the documented meaning decides)
+            if got != first or got[0] != [exp]:
+                ok = False
+        return Verdict(ok, (), dict(family="arguments told apart by a look into the value", trace=trace), ["values"], nontrivial=True)
+
+    return run
+
+
 def make_run(W, shape, known_active=None):
     from ovld import Ovld
 
+    if shape.get("values"):
+        return make_run_values(W, shape)
     n = shape["n"]
     methods = shape["methods"]
     M = len(methods)
@@ -167,9 +233,9 @@ def gen_shapes(tier, seed):
     for f in (shapes, fw, dep):
         rng.shuffle(f)
     if tier == "quick":
-        out = shapes[:25] + fw[:20] + dep[:25] + two[:30]
+        out = shapes[:25] + fw[:20] + dep[:25] + two[:30] + [dict(n=n, L=3, values=True, methods=[])]
     else:
-        out = shapes[:900] + fw[:700] + dep[:900] + two[:1200]
+        out = shapes[:900] + fw[:700] + dep[:900] + two[:1200] + [dict(n=n, L=3, values=True, methods=[])]
     return out, total, True
 
 
